@@ -25,6 +25,7 @@ def run(chk):
     zmask_rule(chk)
     validator_mode_rule(chk)
     vsib_only_rule(chk)
+    validation_data_rule(chk)
     return chk.finish(
         level="other",
         explanation=("(a) the generated signature/name/RW tables regenerate byte-identically from db/; (b) for every instruction id of both "
@@ -303,3 +304,28 @@ def vsib_only_rule(chk):
                detail="`%s` adds a plain memory flag on a path where the index register is a vector register: `mov eax, [rcx + xmm0]` passes "
                       "validation and is encoded as [rcx + rax]" % (" ".join(fn.text(bad[0]).split())[:50] if bad else ""), key="vsibplain|validate")
     chk.floor(R + ":flag-sites", n, 8)
+
+
+def validation_data_rule(chk):
+    R = "R-TABLE-ORACLE"
+    chk.rule(R, "x86 validator mode data (x86_validation_data / x64_validation_data): the register types allowed as memory base / index equal "
+                "the architecture: 32-bit mode {Gp16, Gp32, label} / {Gp16, Gp32, vector}; 64-bit mode {Gp32, Gp64, RIP, label} / {Gp32, Gp64, "
+                "vector} - RIP-relative addressing does not exist in 32-bit mode")
+    f = chk.facts("asmjit/x86/x86instapi.cpp", tables=r"asmjit::x86::InstInternal::(x86|x64)_validation_data$", enums=r"asmjit::RegType$")
+    rt = f["enums"].get("asmjit::RegType")
+    chk.need(rt is not None, "enum RegType not found")
+    rv = {n: v for n, v in rt["enumerators"]}
+    bit = lambda *ns: sum(1 << rv[n_] for n_ in ns)
+    want = {"x86": {"allowed_mem_base_regs": bit("kGp16", "kGp32", "kLabelTag"), "allowed_mem_index_regs": bit("kGp16", "kGp32", "kVec128", "kVec256", "kVec512")},
+            "x64": {"allowed_mem_base_regs": bit("kGp32", "kGp64", "kPC", "kLabelTag"), "allowed_mem_index_regs": bit("kGp32", "kGp64", "kVec128", "kVec256", "kVec512")}}
+    n = 0
+    for mode, fields in want.items():
+        t = f["tables"].get("asmjit::x86::InstInternal::%s_validation_data" % mode)
+        chk.need(t is not None and isinstance(t.get("value"), dict), "%s_validation_data not dumped" % mode)
+        for fld, w in fields.items():
+            got = t["value"].get(fld)
+            n += 1
+            names = lambda m_: sorted(k for k, v in rv.items() if v < 32 and (m_ >> v) & 1 and k != "kMaxValue")
+            chk.ob(R, "%s_validation_data.%s" % (mode, fld), got == w, loc="asmjit/x86/x86instapi.cpp",
+                   detail="%s_validation_data.%s allows %s, the architecture allows %s" % (mode, fld, names(got or 0), names(w)), key="validationdata|%s|%s" % (mode, fld))
+    chk.floor(R + ":validation-data", n, 4)
